@@ -28,7 +28,8 @@ RULE = ("instances of 8 registered RegDom, 4 frozen IceRegDom, a TymeDom and an 
         "str; results equal, distinct, sharing nothing; one changed in place, then a third decode) with clean round trips of other classes before the case's own round "
         "trip; four classes whose fields have non-None defaults, default_factory containers, a default nested object or no "
         "default at all hold None in exactly those fields; four classes with their own _dictify/_datify hook pair (wire form differs from the field dict; non-frozen strict "
-        "and tolerant, TymeDom-based, frozen) round-trip in the history steps; non-trivial = a nested "
+        "and tolerant, TymeDom-based, frozen) round-trip in the history steps, and hooked classes serve as NESTED field types "
+        "one and two levels deep (RegDom, TymeDom, frozen) holding an instance or None; non-trivial = a nested "
         "object, a non-ASCII string, an int beyond 2^53 or a list/dict field")
 MODELLED = ["json / cbor2 / msgpack as an abstract codec with dec (enc v) = Some v on the common domain (checked per case: the "
             "library's decode of its own encoding must equal _asdict())",
@@ -282,6 +283,55 @@ class C28TymeSpan(_SpanHooks, TymeDom):
 class C28IceSpan(_SpanHooks, IceRegDom):
     lo: int = 0
     hi: int = 0
+
+# hooked classes used as NESTED field types, one and two levels deep.  A nested object is serialised by
+# dataclasses.asdict (field dict), a top-level one by its _dictify (wire form), so this hook reads both forms
+class _NSpanHooks:
+    def _dictify(self):
+        return {"lo": self.lo, "len": self.hi - self.lo}
+
+    @classmethod
+    def _datify(cls, d):
+        if "len" in d:
+            return cls(lo=d["lo"], hi=d["lo"] + d["len"])
+        return cls(lo=d["lo"], hi=d["hi"])
+
+@registerify
+@dataclass
+class C28NSpan(_NSpanHooks, RegDom):
+    lo: int = 0
+    hi: int = 0
+
+@registerify
+@dataclass(frozen=True)
+class C28IceNSpan(_NSpanHooks, IceRegDom):
+    lo: int = 0
+    hi: int = 0
+
+@registerify
+@dataclass
+class C28Probe(RegDom):
+    span: C28NSpan = None
+    v: Any = None
+
+@registerify
+@dataclass
+class C28Station(RegDom):
+    probe: C28Probe = None
+    w: Any = None
+
+@registerify
+@dataclass(frozen=True)
+class C28IceProbe(IceRegDom):
+    span: C28IceNSpan = None
+    v: Any = None
+
+@namify
+@registerify
+@dataclass
+class C28TStation(TymeDom):
+    probe: C28Probe = None
+    label: str = "s"
 '''
 # class number -> (name stem, [(field, dataclass number or None)])
 SCHEMA = []
@@ -326,7 +376,13 @@ NCLS = len(SCHEMA)       # the classes whose round trip is also evaluated by the
 HOOKED = [NCLS, NCLS + 1, NCLS + 2, NCLS + 3]
 SCHEMA += [("Span", [("lo", None), ("hi", None)]), ("LaxSpan", [("lo", None), ("hi", None)]),
            ("TymeSpan", [("lo", None), ("hi", None)]), ("IceSpan", [("lo", None), ("hi", None)])]
-FROZEN = {8, 9, 10, 11, 14, 16, 19, 24, 26, 30, NCLS + 3}
+# NCLS+4..NCLS+9: hooked classes as nested field types (NSpan, IceNSpan, Probe > NSpan, Station > Probe > NSpan,
+# IceProbe > IceNSpan, TStation > Probe)
+NESTHOOK = [NCLS + 4 + i for i in range(6)]
+SCHEMA += [("NSpan", [("lo", None), ("hi", None)]), ("IceNSpan", [("lo", None), ("hi", None)]),
+           ("Probe", [("span", NCLS + 4), ("v", None)]), ("Station", [("probe", NCLS + 6), ("w", None)]),
+           ("IceProbe", [("span", NCLS + 5), ("v", None)]), ("TStation", [("probe", NCLS + 6), ("label", None)])]
+FROZEN = {8, 9, 10, 11, 14, 16, 19, 24, 26, 30, NCLS + 3, NCLS + 5, NCLS + 8}
 _classes = None
 
 
@@ -354,6 +410,7 @@ def classes():
         out += [m.C28UMid, m.C28UIce, m.C28UBag, m.C28UIceBag]
         out += [m.C28Limit, m.C28Must, m.C28TLimit, m.C28IceLimit]
         out += [m.C28Span, m.C28LaxSpan, m.C28TymeSpan, m.C28IceSpan]
+        out += [m.C28NSpan, m.C28IceNSpan, m.C28Probe, m.C28Station, m.C28IceProbe, m.C28TStation]
         _classes = out
     return _classes
 
@@ -710,7 +767,21 @@ def rand_typed(rng):
 
 def hooked_obj(rng):
     lo = rng.randint(-50, 50)
-    return obj(rng.choice(HOOKED), lo=["i", lo], hi=["i", lo + rng.randint(0, 40)])
+    if rng.random() < 0.5:
+        return obj(rng.choice(HOOKED), lo=["i", lo], hi=["i", lo + rng.randint(0, 40)])
+    # a hooked class as a nested field type, one or two levels deep, holding an instance or None
+    nsp = lambda c: ["n"] if rng.random() < 0.5 else obj(c, lo=["i", lo], hi=["i", lo + rng.randint(0, 40)])
+    probe = lambda: ["n"] if rng.random() < 0.3 else obj(NCLS + 6, span=nsp(NCLS + 4), v=rand_plain(rng, 1))
+    k = rng.randrange(5)
+    if k == 0:
+        return obj(NCLS + 6, span=nsp(NCLS + 4), v=rand_plain(rng, 1))
+    if k == 1:
+        return obj(NCLS + 7, probe=probe(), w=rand_plain(rng, 1))
+    if k == 2:
+        return obj(NCLS + 8, span=nsp(NCLS + 5), v=rand_plain(rng, 1))
+    if k == 3:
+        return obj(NCLS + 9, probe=probe(), label=["s", "lbl"])
+    return obj(rng.choice([NCLS + 4, NCLS + 5]), lo=["i", lo], hi=["i", lo + 3])
 
 
 def seq_cases(rng, k):
@@ -745,6 +816,13 @@ def directed_seqs():
     hooks = [{"obj": obj(0, a=["i", 1]), "seq": [["rt", obj(c, lo=["i", 2], hi=["i", 9])], ["rt", obj(c, lo=["i", -3], hi=["i", -3])],
                                                   ["twice", 0, obj(c, lo=["i", 2], hi=["i", 9]), "bytes"],
                                                   ["bad", 1, obj(c, lo=["i", 2], hi=["i", 9]), "trunc", 3]]} for c in HOOKED]
+    sp = obj(NCLS + 4, lo=["i", 2], hi=["i", 9])
+    nest = [obj(NCLS + 6, span=["n"], v=["i", 1]), obj(NCLS + 6, span=sp, v=["n"]),
+            obj(NCLS + 7, probe=obj(NCLS + 6, span=["n"], v=["i", 1]), w=["s", "w"]), obj(NCLS + 7, probe=obj(NCLS + 6, span=sp), w=["n"]),
+            obj(NCLS + 7, probe=["n"], w=["i", 0]), obj(NCLS + 8, span=["n"], v=["l", []]),
+            obj(NCLS + 8, span=obj(NCLS + 5, lo=["i", 1], hi=["i", 4]), v=["n"]),
+            obj(NCLS + 9, probe=obj(NCLS + 6, span=["n"]), label=["s", "t"]), obj(NCLS + 9, probe=["n"], label=["s", "t"]), sp]
+    hooks.append({"obj": obj(0, a=["i", 2]), "seq": [["rt", t] for t in nest] + [["twice", 0, nest[2], "bytes"], ["twice", 2, nest[0], "bytes"]]})
     return hooks + _directed_seqs()
 
 
